@@ -288,12 +288,14 @@ class Config():
         payload = (handler(path, raise_not_found) if handler
                    else self.load_yaml(path, raise_not_found))
 
-        if payload:
-            if not isinstance(payload, Mapping):
-                raise pypyr.errors.ConfigError(
-                    f'Config file {path} should be a mapping (i.e a dict or '
-                    'table) at the top level.')
+        # None is an empty or absent file. Anything else must be a mapping,
+        # falsy non-mappings like [] or 0 included.
+        if payload is not None and not isinstance(payload, Mapping):
+            raise pypyr.errors.ConfigError(
+                f'Config file {path} should be a mapping (i.e a dict or '
+                'table) at the top level.')
 
+        if payload:
             self.update(payload)
             self._config_loaded_paths.append(path)
 
